@@ -166,7 +166,55 @@ def outgoing(a=None, b=None):
 '''
 
 
+SHARED_SRC = '''
+@service("pyscript.shared")
+def a():
+    vf.rec('svc', which='a')
+
+@service("pyscript.shared")
+def b():
+    vf.rec('svc', which='b')
+
+@event_trigger("c12_drop")
+def drop(**kw):
+    global b
+    del b
+'''
+
+
+def run_shared_witness(case):
+    """Two live functions of one file declare the same service; the later one is deleted: calls must not run it any more."""
+    import gc
+
+    from ..sim import run_world
+
+    async def main(w):
+        await w.hass.services.async_call("pyscript", "shared", {}, blocking=True)
+        w.fire("c12_drop", {})
+        await w.settle()
+        gc.collect()
+        await w.settle()
+        n0 = len(w.rec)
+        has = w.hass.services.has_service("pyscript", "shared")
+        if has:
+            await w.hass.services.async_call("pyscript", "shared", {}, blocking=True)
+            await w.settle()
+        return has, [r["which"] for r in w.rec[n0:] if r["tag"] == "svc"]
+
+    w, (has, ran) = run_world(main, files={"a.py": SHARED_SRC}, legacy=case["legacy"], keep=True)
+    viol = []
+    if not has:
+        viol.append({"mech": "declared_service_missing", "msg": "pyscript.shared is gone although function a still declares it"})
+    elif ran != ["a"]:
+        viol.append({"mech": "shared_service_name_runs_deleted_function", "msg": f"after `del b` a call of pyscript.shared ran {ran}; the only live declaration is a"})
+    obs = {k: 0 for k in REQUIRED_OBS}
+    obs["calls_made"] = 2
+    return {"verdict": "violated" if viol else "held", "violations": viol, "nontrivial": True, "obs": obs, "sig": f"shared|{case['legacy']}"}
+
+
 def run_case(case):
+    if case.get("witness") == "shared_service_delete":
+        return run_shared_witness(case)
     from ..sim import run_world
 
     rng = random.Random(case["seed"])
